@@ -2,25 +2,25 @@ SPECIFICATION MCSpec
 CONSTANTS
   Chunks = {1}
   Addrs = {1}
-  Hdrs = {"none", "a", "b"}
+  Hdrs = {"none"}
   MaxNow = 5
   Window = 3
   Limit = 2
   FLimit = 2
   TokenCfg = FALSE
-  PowOn = FALSE
-  Families = {"rate", "seed"}
-  RateCmds = {"FETCH-STREAM"}
+  PowOn = TRUE
+  Families = {"rate"}
+  RateCmds = {"STORE"}
   MaxHist = 99
   CheckLemma = FALSE
   DevStopUnchecked = FALSE
   DevFetchOutUnchecked = FALSE
   DevFetchLateAuth = FALSE
   DevRateKeyHeader = FALSE
-  DevRefundOnRefusal = FALSE
-  RateBad = FALSE
+  DevRefundOnRefusal = TRUE
+  RateBad = TRUE
   DevRawNewlines = FALSE
-INVARIANTS C27_Refused C27_NoEffect C28_Admission C28_BeforeBody C28_Rate C29_RoundTrip C29_ListComplete
+INVARIANTS C28_Rate
 VIEW View
 CONSTRAINT Bound
 CHECK_DEADLOCK FALSE
